@@ -342,6 +342,10 @@ func judgeReparse(r *mon.Rec, idx int) {
 		if !step("then Y", y, ry.Names) {
 			return
 		}
+		if !eqNames(kept.Labels, keptNames) || !bytes.Equal(kept.ToBytes(), x) {
+			r.Violate("C19:copy-changed-by-later-decode", fmt.Sprintf("a copy of the parsed set reads %.100q / encodes to %x after another input was decoded into the original; it was %.100q / %x", kept.Labels, trunc(kept.ToBytes()), keptNames, trunc(x)), rp)
+			return
+		}
 		if !step("then X once more", x, rx.Names) {
 			return
 		}
@@ -378,6 +382,17 @@ func judgeEdit(r *mon.Rec, idx int) {
 			names[len(names)-1] = "x"
 		}
 		if len(names[len(names)-1]) > 253 {
+			return
+		}
+	} else if last := names[len(names)-1]; last != "" && rng.IntN(3) == 0 {
+		// the parsed bytes end in a partial name (RFC 4704: no root octet behind the last label); now and then its last
+		// content octet is a NUL, which looks like a root octet to anybody who only looks at the end of the buffer
+		if rng.IntN(3) == 0 {
+			names[len(names)-1] = last[:len(last)-1] + "\x00"
+		}
+		wire = reflabel.Encode(names)
+		wire = wire[:len(wire)-1]
+		if reflabel.Decode(wire).V != reflabel.Names || !reflabel.Decode(wire).Partial {
 			return
 		}
 	}
